@@ -270,7 +270,14 @@ CPTampers ==
    \* forge the digest of the first subtree root of the first / middle / last ROW of the blob (the forged
    \* node keeps its namespace range, so it is a well-formed NMT node) AND present the commitment
    \* recomputed over the forged list: a commitment of nothing in the block
-   <<"forge", "first">>, <<"forge", "middle">>, <<"forge", "last">>}
+   <<"forge", "first">>, <<"forge", "middle">>, <<"forge", "last">>,
+   \* the vacuous proof: every component stripped, the row range inverted by one (start = end + 1, so the
+   \* uint32 row count of Validate() is 0) and the commitment of nothing (hash of the empty list) presented;
+   \* only RowProof.Validate's 64-bit "end < start" / "no row roots" checks refuse it
+   <<"strip", "all">>,
+   \* the honest proof (>= 2 rows) with its row range rewritten to wrap modulo 2^32: end = 0,
+   \* start = 2^32 + 1 - rows, written here as the negative number 1 - rows (wire value = 2^32 + startRow)
+   <<"cprows", "wrap">>}
 
 \* (forging flips bits of the digest: forging the same root twice restores it)
 Forged(sr) == IF Len(sr) = 2 /\ Len(sr[2]) = 2 /\ sr[2][1] = "forged" THEN sr[2][2] ELSE <<"sr", <<"forged", sr>>>>
@@ -291,6 +298,13 @@ ApplyCP(t, o, v) ==
     [] t[1] = "subtreeRootProofs" -> [v EXCEPT !.proof.subtreeRootProofs = ApplySeq(t[2], p.subtreeRootProofs, oth.subtreeRootProofs, Nil)]
     [] t[1] = "subtreeRootProof0" -> [v EXCEPT !.proof.subtreeRootProofs = ApplyNP0(t[2], p.subtreeRootProofs)]
     [] t[1] \in {"rowRoots", "rowProofs", "rowProof0", "rows"} -> [v EXCEPT !.proof.rowProof = ApplyRowProof(t, p.rowProof, oth.rowProof)]
+    [] t = <<"strip", "all">> -> [v EXCEPT !.proof.subtreeRoots = <<>>, !.proof.subtreeRootProofs = <<>>,
+                                            !.proof.rowProof.rowRoots = <<>>, !.proof.rowProof.proofs = <<>>,
+                                            !.proof.rowProof.startRow = 1, !.proof.rowProof.endRow = 0,
+                                            !.com = Hash(<<>>)]
+    [] t = <<"cprows", "wrap">> -> IF Len(p.rowProof.rowRoots) < 2 THEN v
+                                   ELSE [v EXCEPT !.proof.rowProof.startRow = 1 - Len(p.rowProof.rowRoots),
+                                                  !.proof.rowProof.endRow = 0]
     [] t = <<"ns", "other">> -> [v EXCEPT !.proof.ns = IF p.ns = 2 THEN 4 ELSE 2]
     [] t = <<"com", "other">> -> [v EXCEPT !.com = Commitment(CPOther(o)[1], CPOther(o)[2])]
     [] t = <<"com", "otherSq">> -> [v EXCEPT !.com = Commitment(CPOtherSq(o)[1], CPOtherSq(o)[2])]
@@ -376,7 +390,7 @@ ApplyINC(t, o, v) ==
 \* RowProof.Validate(root) of celestia-app pkg/proof (commitment proofs) and of celestia-core types
 \* (range results): same checks in a slightly different order; VerifyProof dereferences every proof.
 RowProofValidate(rp, root) ==
-  IF rp.endRow < rp.startRow THEN "err"
+  IF rp.startRow < 0 \/ rp.endRow < rp.startRow THEN "err"       \* a negative startRow stands for 2^32 + startRow (compared as integers, no wrap)
   ELSE IF rp.endRow - rp.startRow + 1 # Len(rp.rowRoots) THEN "err"
   ELSE IF Len(rp.rowRoots) = 0 THEN "err"
   ELSE IF Len(rp.proofs) # Len(rp.rowRoots) THEN "err"
